@@ -96,16 +96,32 @@ def rule_B1(ctx):
     ctx.ob("B1", fd, "decoder rejects every other byte (InvalidCharacter)", ok, "", inst="fast-reject")
     # wiring
     enc = ctx.fn(AS, "char_ascii_to_akai", "B1")
-    t = full(enc)
-    ok = "_char_format_convert(bytes_in, CharFormat.ASCII, CharFormat.AKAI)" in t and "str_in.upper().encode('ascii')" in t
-    ctx.ob("B1", enc, "encoding converts ASCII -> AKAI over every byte", ok, "", inst="encode-wiring")
+    pe = enc.args.args[0].arg
+    want_e = {True: f"bytes(_char_format_convert(({pe}.upper()).encode('ascii'),CharFormat.ASCII,CharFormat.AKAI))",
+              False: f"bytes(_char_format_convert({pe},CharFormat.ASCII,CharFormat.AKAI))"}
+    eps = [p for p in run_paths(ctx, enc, rule="B1")]
+    ok = len(eps) >= 2 and all(p.end == "return" and p.ret is not None for p in eps)
+    for p in eps:
+        is_str = None
+        for c_, t_, _ in p.conds:
+            if c_ == f"truthy(isinstance({pe},str))":
+                is_str = t_
+            elif c_ == f"not(truthy(isinstance({pe},str)))":
+                is_str = not t_
+        ok = ok and is_str is not None and p.ret is not None and p.ret.key() == want_e[is_str]
+    ctx.ob("B1", enc, "encoding converts ASCII -> AKAI over every byte", ok, f"{[p.ret.key() if p.ret is not None else None for p in eps]}"[:300], inst="encode-wiring")
+    from .sem import returned_map
     cv = ctx.fn(AS, "_char_format_convert", "B1")
-    ok = "_char_format_convert_byte(x, src_fmt, dst_fmt)" in full(cv)
-    ctx.ob("B1", cv, "the list converter applies the byte converter with the same formats", ok, "", inst="convert-wiring")
+    pa = [a_.arg for a_ in cv.args.args]
+    rm = returned_map(cv)
+    ok = rm is not None and len(pa) == 3 and rm[0] is None and rm[1] == pa[0] and rm[2].replace(" ", "") in (
+        f"_char_format_convert_byte(_c0,{pa[1]},{pa[2]})", f"_char_format_convert_byte(_c0,src_fmt={pa[1]},dst_fmt={pa[2]})",
+        f"_char_format_convert_byte(byte_in=_c0,src_fmt={pa[1]},dst_fmt={pa[2]})")
+    ctx.ob("B1", cv, "the list converter applies the byte converter with the same formats", ok, f"{rm}", inst="convert-wiring")
     dec = ctx.fn(AS, "_fast_akai_to_ascii", "B1")
-    t = full(dec)
-    ok = "out_str.append(chr(_fast_akai_to_ascii_byte(byte)))" in t and "for byte in bytes_in" in t and "''.join(out_str)" in t
-    ctx.ob("B1", dec, "decoding converts every byte in order", ok, "", inst="decode-wiring")
+    rm = returned_map(dec)
+    ok = rm is not None and rm[0] == "join:" and rm[1] == dec.args.args[0].arg and rm[2].replace(" ", "") == "chr(_fast_akai_to_ascii_byte(_c0))"
+    ctx.ob("B1", dec, "decoding converts every byte in order", ok, f"{rm}", inst="decode-wiring")
     ca = ctx.fn(AS, "char_akai_to_ascii", "B1")
     ctx.ob("B1", ca, "char_akai_to_ascii uses the byte decoder", "_fast_akai_to_ascii(bytes_in)" in full(ca), "", inst="decode-entry")
     ad = ctx.fn(AS, "AkaiString._decode", "B1")
